@@ -31,6 +31,10 @@ Hdrs == /\ Live("hdrs")
                      <<"MetadataCarried", E.ok => MetadataCarried(E.list, meta)>> >>,
                   [s EXCEPT !.list = E.list, !.seen = @ \cup {"hdrs"}])
         /\ Count(IF \E i \in 1..Len(E.list) : E.list[i].n = "grpc-message" /\ \E j \in 1..Len(E.list[i].v) : E.list[i].v[j] = 37 THEN {"escaped_msg"} ELSE {})
+\* the same status written as the trailers-only response of into_http(): the same headers, HTTP 200,
+\* content-type application/grpc, and a body that is already at its end (so that the headers frame ends the stream)
+Written == /\ Live("written") /\ UNCHANGED stats
+           /\ JudgeK(<< <<"IntoHttpIsATrailersOnlyResponse", E.into_http_same /\ E.http_status = 200 /\ E.ctype = << <<97, 112, 112, 108, 105, 99, 97, 116, 105, 111, 110, 47, 103, 114, 112, 99>> >> /\ E.eos>> >>, s)
 Input == /\ Live("input")
          /\ JudgeK(<< <<"AllHeadersUsable", E.skipped = 0>> >>, [s EXCEPT !.list = E.list, !.seen = @ \cup {"input"}])
          /\ Count((IF ~HasName(E.list, "grpc-status") THEN {"no_status_inputs"} ELSE {})
@@ -57,7 +61,7 @@ H2 == /\ Live("h2") /\ UNCHANGED stats
 End == EndK(<< <<"RunComplete", E.outcome = "ok" => (IF s.stim.kind \in {"rt", "parse"} THEN "parsed" \in s.seen \/ (s.stim.kind = "rt" /\ "hdrs" \in s.seen)
                                                      ELSE s.stim.kind \in s.seen)>> >>)
 
-Known == {"reset", "built", "hdrs", "input", "parsed", "http", "h2", "end"}
-Next == Reset \/ Built \/ Hdrs \/ Input \/ Parsed \/ Http \/ H2 \/ End \/ UnknownK(Known) \/ DeadSkipK
+Known == {"reset", "built", "written", "hdrs", "input", "parsed", "http", "h2", "end"}
+Next == Reset \/ Built \/ Written \/ Hdrs \/ Input \/ Parsed \/ Http \/ H2 \/ End \/ UnknownK(Known) \/ DeadSkipK
 Spec == Init /\ [][Next]_kvars
 =============================================================================
